@@ -6,9 +6,11 @@
       0<=f<6 /\ 0<=l<=30 /\ 0<=k<4^l /\ c = f*2^61 + (2k+1)*4^(30-l). *)
 From Coq Require Import ZArith List Bool Floats Reals.
 From Geo Require Import Base.GoPrim Gen.CellIDFull Model.CellIDTables
-  Base.F64Arith Proofs.C01_Tables Proofs.C01_Algebra Proofs.C01_IJ Proofs.C01_Advance Proofs.C01_Iter Proofs.C01_Point Proofs.StUV_Mono.
+  Base.F64Arith Proofs.C01_Tables Proofs.C01_Algebra Proofs.C01_IJ Proofs.C01_Advance Proofs.C01_Iter Proofs.C01_Point Proofs.C01_Text Proofs.C01_Hilbert Proofs.C01_Inverse Proofs.C01_Nbr Proofs.StUV_Mono.
 (* the hand models compared with Go by the observer (built with this file: one make target) *)
-From Geo Require Model.CellIDNbr Model.CellIDText Model.C01Obs.
+From Geo Require Model.C01Obs.
+From Geo Require Import Model.CellIDNbr.
+From Geo Require Import Model.CellIDText.
 Import ListNotations.
 Local Open Scope Z_scope.
 
@@ -95,6 +97,43 @@ Theorem c01_face_ij_roundtrip : forall f i j, 0 <= f < 6 -> 0 <= i < 2 ^ 30 -> 0
 Proof. exact ij_roundtrip. Qed.
 Print Assumptions c01_face_ij_roundtrip.
 
+(** text forms (hand model Model/CellIDText.v, compared with Go on every run) -------------- *)
+Theorem c01_token_roundtrip : forall c, 0 <= c < 2 ^ 64 ->
+  CellIDFromToken (ToToken c) = c /\ (length (ToToken c) <= 16)%nat.
+Proof. intros c Hc. split; [exact (token_roundtrip c Hc)|exact (ToToken_length c)]. Qed.
+Print Assumptions c01_token_roundtrip.
+
+Example c01_token_zero : ToToken 0 = [88] /\ CellIDFromToken [88] = 0.
+Proof. split; reflexivity. Qed.
+
+Theorem c01_string_roundtrip : forall c f l k, rep c f l k -> CellIDFromString (CellID_String c) = c.
+Proof. exact string_roundtrip. Qed.
+Print Assumptions c01_string_roundtrip.
+
+Theorem c01_from_string_zero_or_valid : forall s : list Z,
+  CellIDFromString s = 0 \/ s2_CellID_IsValid (CellIDFromString s) = true.
+Proof. exact FromString_zero_or_valid. Qed.
+Print Assumptions c01_from_string_zero_or_valid.
+
+(** the other direction: with c01_face_ij_roundtrip, cellIDFromFaceIJ is a bijection between
+    {f<6} x [0,2^30)^2 and the valid leaves, with inverse faceIJOrientation *)
+Theorem c01_face_ij_inverse : forall c f k, rep c f 30 k ->
+  exists i j o, s2_CellID_faceIJOrientation c = (f, i, j, o) /\ 0 <= i < 2 ^ 30 /\ 0 <= j < 2 ^ 30 /\
+    s2_cellIDFromFaceIJ f i j = c.
+Proof. exact face_ij_inverse. Qed.
+Print Assumptions c01_face_ij_inverse.
+
+(** prefix property: the (i,j) returned for a cell and for any of its ancestors lie in the same
+    square of the ancestor's level (so ijLevelToBoundUV of the ancestor is the bound of the square
+    containing the cell's (i,j)) *)
+Theorem c01_ancestor_ij_prefix : forall c f l k l', rep c f l k -> 0 <= l' <= l ->
+  exists i j o i' j' o',
+    s2_CellID_faceIJOrientation c = (f, i, j, o) /\
+    s2_CellID_faceIJOrientation (s2_CellID_Parent c l') = (f, i', j', o') /\
+    i' / 2 ^ (30 - l') = i / 2 ^ (30 - l') /\ j' / 2 ^ (30 - l') = j / 2 ^ (30 - l').
+Proof. exact ancestor_prefix. Qed.
+Print Assumptions c01_ancestor_ij_prefix.
+
 (** along the curve ----------------------------------------------------------- *)
 Theorem c01_next_wrap_is_index_plus_one : forall c f l k, rep c f l k ->
   let i := (index f l k + 1) mod (6 * 4 ^ l) in
@@ -143,6 +182,95 @@ Theorem c01_distance_from_begin_is_index : forall c f l k, rep c f l k ->
   s2_CellID_distanceFromBegin c = index f l k.
 Proof. exact distanceFromBegin_index. Qed.
 Print Assumptions c01_distance_from_begin_is_index.
+
+(** Hilbert continuity (closed): consecutive cells of a level on one face are exactly one step apart in
+    the (i,j) grid of that level (they share an edge); the last cell of a face and the first cell of
+    the next face share an edge in the integer cube model ([share_edge]: two distinct common corners
+    under the exact linear face frames of faceUVToXYZ). *)
+Theorem c01_hilbert_continuity : forall c f l k, rep c f l k -> k + 1 < 4 ^ l ->
+  exists i j o i' j' o',
+    s2_CellID_faceIJOrientation c = (f, i, j, o) /\
+    s2_CellID_faceIJOrientation (s2_CellID_Next c) = (f, i', j', o') /\
+    rep (s2_CellID_Next c) f l (k + 1) /\
+    Z.abs (i / 2 ^ (30 - l) - i' / 2 ^ (30 - l)) + Z.abs (j / 2 ^ (30 - l) - j' / 2 ^ (30 - l)) = 1.
+Proof. exact hilbert_continuity. Qed.
+Print Assumptions c01_hilbert_continuity.
+
+Theorem c01_hilbert_face_to_face : forall c f l, rep c f l (4 ^ l - 1) ->
+  exists i j o i' j' o',
+    s2_CellID_faceIJOrientation c = (f, i, j, o) /\
+    s2_CellID_faceIJOrientation (s2_CellID_NextWrap c) = ((f + 1) mod 6, i', j', o') /\
+    rep (s2_CellID_NextWrap c) ((f + 1) mod 6) l 0 /\
+    share_edge (2 ^ l) f (i / 2 ^ (30 - l)) (j / 2 ^ (30 - l)) ((f + 1) mod 6) (i' / 2 ^ (30 - l)) (j' / 2 ^ (30 - l)).
+Proof. exact face_to_face. Qed.
+Print Assumptions c01_hilbert_face_to_face.
+
+(** neighbours, same-face part.  [at_pos c f l a b]: c is the valid level-l cell of face f at grid
+    position (a,b) (faceIJOrientation c returns a leaf inside that square).  EdgeNeighbors calls
+    cellIDFromFaceIJWrap (a float round trip) even inside the face, hence the premise
+    [H_WRAP_INSIDE] (float64 arithmetic only: for 0 <= i,j < 2^30 the wrap function is
+    cellIDFromFaceIJ — every operation on that path is exact).
+    TODO (not closed): discharge H_WRAP_INSIDE (needs exactness of float_of_Z, *2^-30, /1, floor);
+    cross-face entries (H-WRAP proper: the leaf just outside a face side is the adjacent leaf of
+    the neighbouring face) — covered by [S] against the cube model on every run. *)
+Theorem c01_edge_neighbors_same_face_under_H : H_WRAP_INSIDE -> forall c f l a b, at_pos c f l a b ->
+  exists n0 n1 n2 n3, s2_CellID_EdgeNeighbors c = [n0; n1; n2; n3] /\
+    (0 <= b - 1 -> at_pos n0 f l a (b - 1)) /\ (a + 1 < 2 ^ l -> at_pos n1 f l (a + 1) b) /\
+    (b + 1 < 2 ^ l -> at_pos n2 f l a (b + 1)) /\ (0 <= a - 1 -> at_pos n3 f l (a - 1) b).
+Proof. exact EdgeNeighbors_same_face. Qed.
+Print Assumptions c01_edge_neighbors_same_face_under_H.
+
+Theorem c01_edge_neighbors_interior_under_H : H_WRAP_INSIDE -> forall c f l a b, at_pos c f l a b ->
+  1 <= a -> a + 1 < 2 ^ l -> 1 <= b -> b + 1 < 2 ^ l ->
+  exists n0 n1 n2 n3, s2_CellID_EdgeNeighbors c = [n0; n1; n2; n3] /\
+    at_pos n0 f l a (b - 1) /\ at_pos n1 f l (a + 1) b /\ at_pos n2 f l a (b + 1) /\ at_pos n3 f l (a - 1) b /\
+    NoDup [n0; n1; n2; n3] /\
+    (forall n, In n [n0; n1; n2; n3] -> s2_CellID_Level n = l /\ s2_CellID_IsValid n = true /\
+       n <> c /\ s2_CellID_Intersects c n = false).
+Proof. exact EdgeNeighbors_interior. Qed.
+Print Assumptions c01_edge_neighbors_interior_under_H.
+
+(** every valid cell has a grid position, the position determines the cell, and the level-l ancestor
+    of the leaf at (i,j) is the cell at (i / 2^(30-l), j / 2^(30-l)) (closed) *)
+Theorem c01_grid_positions : 
+  (forall c f l k, rep c f l k -> exists a b, at_pos c f l a b) /\
+  (forall c c' f l a b, at_pos c f l a b -> at_pos c' f l a b -> c = c') /\
+  (forall f i j l, 0 <= f < 6 -> 0 <= i < 2 ^ 30 -> 0 <= j < 2 ^ 30 -> 0 <= l <= 30 ->
+     at_pos (s2_CellID_Parent (s2_cellIDFromFaceIJ f i j) l) f l (i / 2 ^ (30 - l)) (j / 2 ^ (30 - l))) /\
+  (forall c c' f l a b a' b', at_pos c f l a b -> at_pos c' f l a' b' -> (a, b) <> (a', b') ->
+     c <> c' /\ s2_CellID_Intersects c c' = false).
+Proof. split; [exact at_pos_of_rep|]. split; [exact at_pos_inj|]. split; [exact parent_of_leaf_at|exact at_pos_disjoint]. Qed.
+Print Assumptions c01_grid_positions.
+
+(** VertexNeighbors (hand model Model/CellIDNbr.v, compared with Go on every run), same-face part:
+    when the vertex of the level-`level` ancestor chosen by the bits of the cell's leaf (i,j) is interior
+    to the face, the four entries are the ancestor (which contains c) and the three cells of that level
+    around the vertex: valid, of the requested level, pairwise distinct, at the stated grid positions (closed).
+    TODO: that the chosen vertex is the one closest to c (bit 30-level-1 of i,j <-> quadrant), the
+    3-entry case at cube corners and cross-face entries (H-WRAP) — [S] complete-set oracle on every run. *)
+Theorem c01_vertex_neighbors_same_face : forall c f l a b level, at_pos c f l a b -> 0 <= level < l ->
+  exists i j o, s2_CellID_faceIJOrientation c = (f, i, j, o) /\
+  let A := i / 2 ^ (30 - level) in let B := j / 2 ^ (30 - level) in
+  let di := if negb (Z.land i (2 ^ (30 - (level + 1))) =? 0) then 1 else -1 in
+  let dj := if negb (Z.land j (2 ^ (30 - (level + 1))) =? 0) then 1 else -1 in
+  0 <= A + di < 2 ^ level -> 0 <= B + dj < 2 ^ level ->
+  exists n0 n1 n2 n3, VertexNeighbors c level = [n0; n1; n2; n3] /\
+    n0 = s2_CellID_Parent c level /\ s2_CellID_Contains n0 c = true /\
+    at_pos n0 f level A B /\ at_pos n1 f level (A + di) B /\ at_pos n2 f level A (B + dj) /\
+    at_pos n3 f level (A + di) (B + dj) /\ NoDup [n0; n1; n2; n3].
+Proof. exact VertexNeighbors_same_face. Qed.
+Print Assumptions c01_vertex_neighbors_same_face.
+
+(** AllNeighbors (hand model Model/CellIDNbr.v, compared with Go on every run): the loop terminates
+    with the documented 4 * (size / nbrSize) + 4 entries, for every valid cell and level >= its level.
+    TODO (not closed): per-entry statement for AllNeighbors (each same-face entry is
+    Parent (cellIDFromFaceIJ f i' j') level, hence by c01_grid_positions a valid cell of the requested
+    level at position (i'/nbrSize, j'/nbrSize), disjoint from c and touching it — the arithmetic on
+    the loop's coordinates is what is missing); checked by [S] (complete-set oracle) on every run. *)
+Theorem c01_all_neighbors_count : forall c f l k level, rep c f l k -> l <= level <= 30 ->
+  length (AllNeighbors c level) = Z.to_nat (4 * 2 ^ (level - l) + 4).
+Proof. exact AllNeighbors_count. Qed.
+Print Assumptions c01_all_neighbors_count.
 
 (** points -------------------------------------------------------------------- *)
 Theorem c01_point_leaf_is_valid : forall p, exists f k, 0 <= f < 6 /\ rep (s2_cellIDFromPoint p) f 30 k /\
